@@ -746,3 +746,13 @@ Print Assumptions disjoint_union_test_returns_the_union.
 Theorem set_equality_test_is_equality : forall a b, opt_bset_eqb a b = true <-> a = b.
 Proof. exact opt_bset_eqb_iff. Qed.
 Print Assumptions set_equality_test_is_equality.
+
+Theorem inclusion_test_is_inclusion : forall x y,
+  subset_opt (Some x) (Some y) = true <-> forall i, mem i x = true -> mem i y = true.
+Proof. exact subset_opt_iff. Qed.
+Print Assumptions inclusion_test_is_inclusion.
+
+Theorem inclusion_test_accepts_every_inclusion : forall a b,
+  (forall i, mem_o i a = true -> mem_o i b = true) -> subset_opt a b = true.
+Proof. exact subset_opt_complete. Qed.
+Print Assumptions inclusion_test_accepts_every_inclusion.
